@@ -211,7 +211,8 @@ class C04(HistoryProfile):
         # action performed by auto-removal / recalculation side effects (known finding F-l)
         out["fault"]["phase"] = "post"
         out["fault"]["kind"] = g.rng.choice(["F1", "F2rec", "F4"])
-      if cfg.get("enumerate") and g.rng.random() < cfg["enum_p"]:
+      if cfg.get("enumerate") and g.rng.random() < cfg["enum_p"] and st.get("enumerated", 0) < 3:
+        st["enumerated"] = st.get("enumerated", 0) + 1      # (bounds the length of one run)
         out["enumerate"] = True
       return out
     return ev
